@@ -24,9 +24,12 @@ class Report:
         self.explanations[rid] = text
         self.floors[rid] = floor
 
-    def ob(self, rule, instance, ok, detail="", where=None, key=None, witness=None):
-        """record an obligation; if not ok, a violation with `key` (defaults to rule|instance)"""
-        self.obligations.append({"rule": rule, "instance": instance, "ok": bool(ok), "detail": detail, "where": where})
+    def ob(self, rule, instance, ok, detail="", where=None, key=None, witness=None, fkey=None):
+        """record an obligation; if not ok, a violation with `key` (defaults to rule|instance).
+        `fkey` is the refactor-stable name the floor counts (defaults to the instance text): floors count DISTINCT
+        fkeys, so that merging or splitting the code sites behind one interface-level instance never trips a floor."""
+        self.obligations.append({"rule": rule, "instance": instance, "ok": bool(ok), "detail": detail, "where": where,
+                                 "fkey": fkey if fkey is not None else instance})
         if not ok:
             self.violations.append({
                 "rule": rule, "key": key or "%s | %s" % (rule, instance),
@@ -40,14 +43,17 @@ class Report:
     def finish(self):
         """fail closed on floors: a rule that matched fewer instances than counted by hand"""
         counts = {}
+        distinct = {}
         for o in self.obligations:
             counts[o["rule"]] = counts.get(o["rule"], 0) + 1
+            distinct.setdefault(o["rule"], set()).add(o["fkey"])
+        self.distinct = {r: len(s) for r, s in distinct.items()}
         for rid, fl in self.floors.items():
-            n = counts.get(rid, 0)
+            n = self.distinct.get(rid, 0)
             if n < fl:
                 self.violations.append({
                     "rule": rid, "key": "%s | anchor-lost" % rid,
-                    "msg": "anchor-lost: rule %s matched %d instance(s), floor is %d (%s)" % (rid, n, fl, self.explanations.get(rid, "")),
+                    "msg": "anchor-lost: rule %s matched %d distinct instance(s), floor is %d (%s)" % (rid, n, fl, self.explanations.get(rid, "")),
                     "where": None, "witness": None, "instance": "anchor-lost",
                 })
         self.counts = counts
@@ -102,7 +108,7 @@ def emit(rep, prog, world_stats=None):
         if o["rule"] not in seen_rules and o["ok"]:
             seen_rules.add(o["rule"])
             samples.append({"rule": o["rule"], "instance": o["instance"], "where": o["where"], "detail": o["detail"][:400]})
-    rule_instances = {rid: {"count": counts.get(rid, 0), "floor": rep.floors.get(rid, 0), "text": rep.explanations.get(rid, "")}
+    rule_instances = {rid: {"count": counts.get(rid, 0), "distinct": rep.distinct.get(rid, 0), "floor": rep.floors.get(rid, 0), "text": rep.explanations.get(rid, "")}
                       for rid in sorted(set(list(rep.floors) + list(counts)))}
     cov = {
         "explanation": "Static analysis of the type-checked program: rustc MIR of all workspace crates "
